@@ -237,5 +237,20 @@ class SolveGroupSwizzlerPartsel(object):
                     BinExprType.Eq,
                     ExprLiteralModel((bit_pattern >> i) & 1, False, 1)
                     ))        
+
+        if d_width > 0 and d_width < f.width:
+            # The bits above the swizzled ones belong to the target value
+            # as well (zeros, or the sign bits of a negative value). 
+            # Leaving them to the solver makes values that share their
+            # low bits with another legal value unreachable
+            u_width = f.width-d_width
+            e.append(ExprBinModel(
+                ExprPartselectModel(
+                    ExprFieldRefModel(f),
+                    ExprLiteralModel(f.width-1, False, 32),
+                    ExprLiteralModel(d_width, False, 32)),
+                BinExprType.Eq,
+                ExprLiteralModel((bit_pattern >> d_width) & ((1 << u_width)-1), False, u_width)
+                ))
         return e
 
